@@ -156,9 +156,12 @@ def match_known(known, pid, ob) -> Optional[dict]:
             continue
         if k['property'] != pid:
             continue
-        if not fnmatch.fnmatch(ob['oid'], k['obligation']):
+        pats = k['obligation'] if isinstance(k['obligation'], list) else [k['obligation']]
+        if not any(fnmatch.fnmatchcase(ob['oid'], p) for p in pats):
             continue
-        if not fnmatch.fnmatch(ob['config'], k.get('config', '*')):
+        cpats = k.get('config', '*')
+        cpats = cpats if isinstance(cpats, list) else [cpats]
+        if not any(fnmatch.fnmatchcase(ob['config'], p) for p in cpats):
             continue
         wk = k.get('witness_match')
         if wk:
@@ -213,9 +216,14 @@ def finish(pid: str, tier: str, seed: int, results: List[dict], t0: float, level
     exit_code = EXIT_OK
     violations = 0
     lines = []
-    seen_known = set()
     n_dis = n_sat = n_inc = n_reach = 0
     replayed_per_oid: Dict[str, int] = {}
+    known_done: Dict[str, bool] = {}
+    # decide the replay order: violations not covered by a known finding first
+    sat_obs = [o for o in obs if o['verdict'] == 'sat']
+    for o in sat_obs:
+        o['_known'] = match_known(known, pid, o)
+    sat_obs.sort(key=lambda o: o['_known'] is not None)
     for o in obs:
         v = o['verdict']
         if v == 'unsat':
@@ -228,37 +236,46 @@ def finish(pid: str, tier: str, seed: int, results: List[dict], t0: float, level
         elif v == 'unknown':
             n_inc += 1
             lines.append(f'INCONCLUSIVE property={pid} {o["oid"]} @ {o["config"]} {o["detail"]}')
-        elif v == 'sat':
-            n_sat += 1
-            # replay at most 3 counterexamples per obligation id and 30 in total (each replay is a
-            # fresh interpreter); further ones of the same obligation are counted but not reported
-            if replayed_per_oid.get(o['oid'], 0) >= 3 or sum(replayed_per_oid.values()) >= 30:
-                o['replay'] = 'skipped (same obligation already replayed)'
+    for o in sat_obs:
+        n_sat += 1
+        k = o.pop('_known')
+        if k is not None:
+            kid = k.get('id', str(k['obligation']) + str(k.get('config', '')))
+            o['known_finding'] = kid
+            if kid in known_done:
+                o['replay'] = 'not replayed (known finding already confirmed on another obligation)'
                 continue
-            replayed_per_oid[o['oid']] = replayed_per_oid.get(o['oid'], 0) + 1
             rep = replay_in_fresh_interpreter(pid, o.get('witness') or {}, o['oid'], o['config'])
-            o['replay'] = dict(reproduced=rep['reproduced'], path=os.path.relpath(rep['path'], VERIF))
             if rep['reproduced'] is True:
-                k = match_known(known, pid, o)
-                if k is not None:
-                    key = k.get('id', k['obligation'] + k.get('config', ''))
-                    if key not in seen_known:
-                        seen_known.add(key)
-                        lines.append(f'KNOWN-FINDING: property={pid} {k["what"]}')
-                    o['known_finding'] = k.get('id', True)
-                    try:
-                        os.remove(rep['path'])
-                    except OSError:
-                        pass
-                else:
-                    violations += 1
-                    lines.append(f'VIOLATION property={pid} replay={rep["path"]}')
-                    lines.append(f'  obligation {o["oid"]} @ {o["config"]}: {o["detail"]}')
-                    exit_code = max(exit_code, EXIT_VIOLATION)
+                known_done[kid] = True
+                lines.append(f'KNOWN-FINDING: property={pid} {k["what"]}')
+                o['replay'] = dict(reproduced=True)
+                try:
+                    os.remove(rep['path'])
+                except OSError:
+                    pass
             else:
-                lines.append(f'HARNESS-ERROR counterexample did not reproduce: {o["oid"]} @ '
-                             f'{o["config"]} (model kept in {rep["path"]})\n{rep["out"][-800:]}')
+                lines.append(f'HARNESS-ERROR known-finding counterexample did not reproduce: {o["oid"]} @ '
+                             f'{o["config"]} ({rep["path"]})\n{rep["out"][-800:]}')
                 exit_code = max(exit_code, EXIT_HARNESS)
+            continue
+        # replay at most 3 counterexamples per obligation id and 30 in total (each replay is a fresh
+        # interpreter); further ones of the same obligation are counted but not reported
+        if replayed_per_oid.get(o['oid'], 0) >= 3 or sum(replayed_per_oid.values()) >= 30:
+            o['replay'] = 'skipped (same obligation already replayed)'
+            continue
+        replayed_per_oid[o['oid']] = replayed_per_oid.get(o['oid'], 0) + 1
+        rep = replay_in_fresh_interpreter(pid, o.get('witness') or {}, o['oid'], o['config'])
+        o['replay'] = dict(reproduced=rep['reproduced'], path=os.path.relpath(rep['path'], VERIF))
+        if rep['reproduced'] is True:
+            violations += 1
+            lines.append(f'VIOLATION property={pid} replay={rep["path"]}')
+            lines.append(f'  obligation {o["oid"]} @ {o["config"]}: {o["detail"]}')
+            exit_code = max(exit_code, EXIT_VIOLATION)
+        else:
+            lines.append(f'HARNESS-ERROR counterexample did not reproduce: {o["oid"]} @ '
+                         f'{o["config"]} (model kept in {rep["path"]})\n{rep["out"][-800:]}')
+            exit_code = max(exit_code, EXIT_HARNESS)
     for c, e in errors:
         lines.append(f'HARNESS-ERROR worker failed @ {c}: {e[-1500:]}')
         exit_code = max(exit_code, EXIT_HARNESS)
